@@ -16,51 +16,81 @@ from copula_models import INF, elit, elist, idxlit
 
 PROP = "C11"
 PROPERTY_FILE = "Properties/C11.v"
-GEN_DEPS = ["GenC12Mass"]     # Proofs/C11_Increasing.v reuses order lemmas of Proofs/C12_Mass.v, which imports the generated masses
+GEN_DEPS = ["GenC12Mass", "GenC11Clayton"]     # GenC11Clayton: Clayton conditional distribution + inverse from the source (specs/C11.py); Proofs/C11_Increasing.v reuses order lemmas of Proofs/C12_Mass.v, which imports the generated masses
 RULE = ("cases: (copula, parameters, argument vector / rectangle / conditional argument); copulas = independent, completely dependent, "
         "Clayton with theta in {0.05..8} and eta in [0,1] incl. 0 and 1; vectors from a dyadic lattice {-inf,-3,-1.25,-0.5,0,0.25,1,2.5,"
         "inf}^d, d = 2, 3, every sign pattern, zero and infinite entries (vectors whose entries are ALL infinite are outside the model: the "
-        "code returns +-inf/nan there); rectangles = all pairs of lattice points per coordinate; non-trivial = distinct case with at "
-        "least one finite non-zero entry")
+        "code returns +-inf/nan there); rectangles = all pairs of lattice points per coordinate; conditional distribution: eps in {-7.5,-1,"
+        "-0.02,0,0.02,0.6,12} x x in {-inf,-1e300..-1e-9,0,1e-9..1e300,inf} minus (0,0); x_first_derivative: d = 2 (4 quadrants), d = 3 (8 "
+        "octants), zero entries; non-trivial = distinct case with at least one finite non-zero entry")
 MODELLED = [
     "IndependentComponentsCopula / DependentComponentsCopula / volume / margin: hand models over a Num (Model/Copula.v), exact "
     "vm_compute correspondence on dyadic inputs",
-    "ClaytonCopula.__call__, _condition_distribution_2d, _inverse_conditional_distribution_2d, x_first_derivative (d=2): hand models "
-    "over R (Rpower), tied by Interval case lemmas |model - implementation| <= 1e-9 rel.",
-    "np.power(0, theta) = 0 (eps = 0 or x = +-inf in the conditional distribution): not representable by Rpower; covered by the "
-    "implementation oracle (eps = 0 and x = +-inf are in the swept lists: values in [0,1], monotone, limits 0 / 1, no NaN) only",
-    "generic LevyCopula.inverse_conditional_distribution (Newton without x0: raises for the independent copula) and "
-    "levycopulaseries.py (np.sum of a generator under numpy 2.5): outside C11's statement (Clayton overrides the inverse); observations",
+    "ClaytonCopula._condition_distribution_2d, _inverse_conditional_distribution_2d: REGENERATED from the source by py2coq on every run "
+    "(Gen/GenC11Clayton.v, domain R: np.power -> Rpower, np.where / np.sign / x[0] / np.array([res]) read pointwise) and proved equal, for "
+    "all arguments, to the hand models clayton_cond / clayton_inv the theorems are about; additionally tied by Interval case lemmas",
+    "ClaytonCopula.__call__, x_first_derivative (d=2): hand models over R (Rpower), tied by Interval case lemmas |model - implementation| "
+    "<= 1e-9 rel. (loops / numpy reductions: outside py2coq's subset)",
+    "ClaytonCopula.x_first_derivative in ANY dimension incl. the `np.any(u == 0) -> 0` branch: hand model clayton_xderiv (Model/CopulaX.v), "
+    "tied by Interval case lemmas (1e-9 purely relative) in d = 3 on all eight octants and d = 2, and exactly on vectors with a zero entry; "
+    "linked by theorem to the d = 2 model",
+    "ClaytonCopula._condition_distribution_2d at x = +-inf, x = 0 and eps = 0 (np.power(0, theta) = 0, eps / 0 = inf, (1 + inf) ** negative "
+    "= 0 -- not expressible by Rpower): hand model clayton_cond_x over extended reals with these IEEE conventions written out step by "
+    "step (Model/CopulaX.v), tied by Interval case lemmas on EVERY swept (eps, x) of these regimes (eps = 0, x = 0 and x = +-inf are in the "
+    "swept lists) plus a sample of ordinary ones; linked by theorem to the finite model clayton_cond",
+    "(eps, x) = (0, 0) in the conditional distribution: the code evaluates 0.0 / 0.0 = nan; excluded from the model (cond_defined) and from "
+    "the sweep (the conditional law given a zero first coordinate, at the point 0, is not defined)",
+    "DependentComponentsCopula.conditional_distribution (count of +inf entries): model dep_cond, exact vm_compute correspondence on the "
+    "whole lattice in sizes 1 and 2; no theorem (it is a counter)",
+    "generic LevyCopula.inverse_conditional_distribution (scipy Newton called without a starting point): raises ValueError for every "
+    "copula that does not override it (independent copula; also when handed Clayton's conditional distribution through a harness "
+    "subclass), DependentComponentsCopula.inverse_conditional_distribution raises by design: driven on every run, outcome recorded in the "
+    "evidence histogram inverse_without_closed_form, not judged (outside C11's statement: Clayton overrides the inverse); if the generic "
+    "solver ever returns, its value must invert the conditional distribution (oracle)",
+    "levycopulaseries.py (np.sum of a generator under numpy 2.5): outside C11's statement; not covered",
     "argument vectors whose entries are all infinite: implementation returns +-inf (nan for Clayton with eta in {0,1}); outside the model",
-    "LevyCopula.inverse_conditional_distribution (generic Newton solver), FrankLevyCopula: not offered by the model helpers, not covered",
+    "FrankLevyCopula: not offered by the model helpers, not covered",
 ]
 ASSUMPTIONS = [
-    "Clayton: 0 < theta; 0 <= eta <= 1 for the increasing theorems, 0 < eta < 1 for the inverse (for eta in {0,1} the conditional "
-    "distribution is constant on one half-line and not invertible there)",
+    "Clayton: 0 < theta; 0 <= eta <= 1 for the increasing theorems and for the extended conditional distribution (range, monotone, limits); "
+    "0 < eta < 1 for the inverse (for eta in {0,1} the conditional distribution is constant on one half-line and not invertible there)",
     "increasing theorems: rectangles with at least one side finite at both ends (no all-infinite corner: there the values are +-inf)",
+    "mixed derivative theorems: all arguments non-zero (open quadrants / octants); on the axes the code returns 0 (modelled, exact cases)",
 ]
 THEOREM_NOTES = {
-    "C11_mixed_derivative_partial": "d = 2, all four open quadrants: d2F/dudv = sign(u)sign(v) * x_first_derivative(u,v); d = 3 (third mixed partial) "
-                                    "is checked by finite differences only",
+    "C11_mixed_derivative_partial": "d = 2, all four open quadrants: d2F/dudv = sign(u)sign(v) * x_first_derivative(u,v); named _partial because the "
+                                    "property's wording (times the product of the arguments) is refuted, not because a case is missing "
+                                    "(d = 3: C11_mixed_derivative_3d)",
+    "C11_mixed_derivative_3d": "d = 3, all eight open octants: d3F/du dv dw = sign(u v w) * x_first_derivative([u,v,w]) by three is_derive steps with "
+                               "explicit intermediate partials clD3_1, clD3_2; >= 0 for eta in [0,1], > 0 for 0 < eta < 1. Dimensions above 3 are not "
+                               "used by the library's models and not proved",
     "C11_mixed_derivative_times_product_refuted": "finding F-C11-1: the stated contract (mixed partial times the product of the arguments) is false of "
                                                   "the code; the oracle reports it on the implementation by finite differences (matches_known: only the "
-                                                  "recorded sign(prod u) * mixed-partial behaviour is absorbed)",
-    "C11_conditional_distribution": "x <> 0 and eps <> 0 (np.power(0, theta) = 0 is not Rpower): the values at x = +-inf / eps = 0 are oracle checks; right "
-                                    "inverse and limits need 0 < eta < 1 (for eta in {0,1} the function is constant on a half-line)",
+                                                  "recorded sign(prod u) * mixed-partial behaviour is absorbed), d = 2 and d = 3 (all octants)",
+    "C11_conditional_distribution": "finite x <> 0 and eps <> 0; right inverse and the epsilon-M limits need 0 < eta < 1 (for eta in {0,1} the function is "
+                                    "constant on a half-line). The remaining values are in C11_conditional_distribution_extended",
+    "C11_generated_models": "links the py2coq translation of the two 2-d functions to the hand models over R; the float / IEEE special values are not in this link (they are in clayton_cond_x, a hand model tied by cases)",
+    "C11_conditional_distribution_extended": "x in the extended reals, every real eps, only (eps, x) = (0, 0) excluded (nan in the code); limits as "
+                                             "Coquelicot is_lim at +-inf and at 0, for every eta in [0,1]. The inverse at the end points u in {0, 1} "
+                                             "(x = -+inf) is not modelled",
     "all-infinite vectors": "copula2_ok / copula3_ok quantify over rectangles with a finite side; on all-infinite vectors the code returns +-inf (indep_x / "
                             "dep_x model that, exact correspondence) and nan for Clayton with eta in {0,1} (not modelled)",
 }
-LEVEL_TEXT = ("Proof: 10 Coq theorems. The independent, completely dependent and Clayton Levy copulas (every theta > 0, eta in [0,1]) are Levy "
+LEVEL_TEXT = ("Proof: 15 Coq statements (13 theorems + 2 non-vacuity examples). The independent, completely dependent and Clayton Levy copulas (every theta > 0, eta in [0,1]) are Levy "
               "copulas in dimension 2 and 3: they vanish when an argument is 0, their one-dimensional margins computed with the code's margin "
               "operator are the identity, and EVERY rectangle of (-inf,inf]^d with a finite side -- across quadrants/octants, with end points 0 "
               "and +-inf -- has non-negative volume (Clayton: sign of the finite differences of t^(-1/theta) by the mean value theorem, assembled "
               "over the orthants with weights eta, 1-eta >= 0; dependent: min of three on the positive octant plus reflection). The Clayton "
-              "conditional distribution is a distribution function (range [0,1], non-decreasing, limits 0/1) and the closed-form inverse is its "
-              "left and right inverse. x_first_derivative is sign(u)sign(v) times the mixed partial in all four quadrants (d = 2), hence NOT "
-              "the mixed partial times the product of its arguments (refuted, finding F-C11-1). Models are tied to the code on every run: exact "
-              "vm_compute correspondence for the piecewise-linear copulas (incl. the +-inf values on all-infinite vectors) and the volume/margin "
-              "operators, Interval-certified case lemmas (1e-9) for every Clayton entry point and its pair margins. Partial: the d = 3 mixed "
-              "derivative, the values of the conditional distribution at x = +-inf / eps = 0, and Clayton on all-infinite vectors are oracle-only.")
+              "conditional distribution is a distribution function on the whole extended line, for every eps including eps = 0 (only the nan "
+              "point eps = x = 0 excluded): range [0,1], non-decreasing through 0 and up to +-inf, value exactly 0 / 1 at -inf / +inf and these "
+              "are the limits (is_lim) for every eta in [0,1], continuous at 0; the closed-form inverse is its left and right inverse "
+              "(0 < eta < 1). x_first_derivative is sign(prod u) times the mixed partial in all four quadrants (d = 2) and all eight octants "
+              "(d = 3, third mixed partial, which is >= 0), hence NOT the mixed partial times the product of its arguments (refuted, finding "
+              "F-C11-1). Models are tied to the code on every run: the conditional distribution and its inverse are re-translated from the source by py2coq and proved equal to the models, exact vm_compute correspondence for the piecewise-linear copulas (incl. the "
+              "+-inf values on all-infinite vectors), the volume/margin operators and the dependent copula's conditional distribution, "
+              "Interval-certified case lemmas (1e-9) for every Clayton entry point (the conditional distribution at x = +-inf / x = 0 / eps = 0 "
+              "and x_first_derivative in d = 3 / with a zero entry included) and its pair margins. Partial: Clayton on all-infinite vectors and "
+              "the inverses without closed form (generic Newton: raises) are observed only.")
 LEVEL_NOTE = ("Trusted: Coq kernel, vm_compute, Interval's reflexive checker, standard real/classical axioms (Coquelicot); hand models "
               "of the copula formulas (tied by the case checks); numpy float semantics.")
 TECHNIQUE = "Coq proof over R (Coquelicot, lra/nra, MVT) + vm_compute correspondence (Q) + Interval case lemmas (R)"
@@ -86,6 +116,25 @@ Ltac cl := unfold margin, complement, scatter; cbn -[Rpower Rabs clayton];
   cbn -[Rpower Rabs]; decide_tests; cbn -[Rpower Rabs]; unfold Rpower.
 """
 
+IV_HEADER_W5 = """From Coq Require Import Reals List Bool Lra.
+From Interval Require Import Tactic.
+From RV Require Import Base.RB Base.ExtNum Model.Copula Model.CopulaX.
+Import ListNotations.
+Open Scope R_scope.
+Lemma Reqb_false x y : x <> y -> Reqb x y = false.
+Proof. intros H. destruct (Reqb x y) eqn:E; auto. apply Reqb_true in E. contradiction. Qed.
+Ltac decide_tests := repeat match goal with
+  | |- context[Rltb ?a ?b] => first [rewrite (proj2 (Rltb_true a b)) by lra | rewrite (proj2 (Rltb_false a b)) by lra]
+  | |- context[Rleb ?a ?b] => first [rewrite (proj2 (Rleb_true a b)) by lra | rewrite (proj2 (Rleb_false a b)) by lra]
+  | |- context[Reqb ?a ?b] => first [rewrite (proj2 (Reqb_true a b)) by lra | rewrite (Reqb_false a b) by lra]
+  end.
+Ltac abs_tests := repeat match goal with
+  | |- context[Rabs ?a] => first [rewrite (Rabs_right a) by lra | rewrite (Rabs_left a) by lra] end.
+Ltac cl5 := unfold clayton_xderiv, theta_prod, clayton_cond_x, cond_core_x, abs_ratio; cbn -[Rpower Rabs Rdiv];
+  decide_tests; cbn -[Rpower Rabs Rdiv]; abs_tests; unfold np_power_neg, xadd1, np_power_pos; decide_tests; cbn -[Rpower Rabs Rdiv];
+  decide_tests; unfold Rpower.
+"""
+
 
 def rlit(x) -> str:
     fr = Fraction(x)
@@ -105,6 +154,11 @@ def erlit(x) -> str:
 
 def tol_of(v) -> Fraction:
     return Fraction(max(1e-12, 1e-9 * abs(v))).limit_denominator(10 ** 18)
+
+
+def reltol_of(v) -> Fraction:
+    """purely relative 1e-9 (no absolute floor): for values that are legitimately tiny (x_first_derivative at small theta)"""
+    return Fraction(1e-9 * abs(v)) if v != 0 else Fraction(1, 10 ** 12)
 
 
 def mixed_partial_mp(th, et, us):
@@ -211,6 +265,7 @@ def correspond(res):
 
     # ============ B. Clayton: Interval cases + oracle ===============================================================
     iv_cases = []   # (name, statement)
+    iv_cases_w5 = []   # statements about the wave-5 models (Model/CopulaX.v): clayton_xderiv (any d), clayton_cond_x (extended domain)
     for desc, cop in clay:
         th, et = desc[1], desc[2]
         TH, ET = rlit(th), rlit(et)
@@ -268,18 +323,27 @@ def correspond(res):
                 if not (v >= -1e-9):
                     viol("negative (or nan) volume of a rectangle", kind="increasing", copula=desc, a=list(a), b=list(b), got=v)
         # ---- conditional distribution: a distribution function in x, limits, inverse -----------------------------
-        xs = [-INF, -1e300, -1e12, -50.0, -3.0, -1.25, -0.5, -1e-3, -1e-9, 1e-9, 1e-3, 0.25, 1.0, 2.5, 40.0, 1e12, 1e300, INF]
+        xs_all = [-INF, -1e300, -1e12, -50.0, -3.0, -1.25, -0.5, -1e-3, -1e-9, 0.0, 1e-9, 1e-3, 0.25, 1.0, 2.5, 40.0, 1e12, 1e300, INF]
         for eps in (-7.5, -1.0, -0.02, 0.0, 0.02, 0.6, 12.0):
+            # (eps, x) = (0, 0): the code evaluates 0.0 / 0.0 = nan -- the conditional law given "first coordinate = 0" at the point 0 is
+            # not defined (cond_defined = false in the model); every other pair, x = 0 and eps = 0 included, is swept
+            xs = [x for x in xs_all if not (eps == 0 and x == 0)]
             vals = []
             for x in xs:
                 with np.errstate(all="ignore"):
                     v = float(cop.conditional_distribution(eps, np.array([x]))[0])
                 vals.append(v)
                 res.count(("cond", str(desc), eps, x), kind="clayton conditional distribution")
+                res.bump("cond_regime", ("eps=0" if eps == 0 else "eps<>0") + "/" + ("x=+-inf" if math.isinf(x) else "x=0" if x == 0 else "x finite"))
                 if not (0.0 - 1e-12 <= v <= 1.0 + 1e-12):
                     viol("conditional distribution outside [0,1] (or nan)", kind="cond", copula=desc, eps=eps, x=x, got=v)
                 if eps != 0 and math.isfinite(x) and abs(x) < 1e6 and math.isfinite(v) and len(iv_cases) < 100000 and abs(x) >= 1e-3 and rng.random() < (0.25 if tier == "quick" else 1.0):
                     iv_cases.append(f"Rabs (clayton_cond {TH} {ET} {rlit(eps)} {rlit(x)} - {rlit(v)}) <= {rlit(tol_of(v))}")
+                # extended-domain model clayton_cond_x: EVERY special regime (x = +-inf, x = 0, eps = 0) and a sample of the ordinary ones
+                special = math.isinf(x) or x == 0 or eps == 0
+                if math.isfinite(v) and (abs(x) <= 1e6 or math.isinf(x)) and (x == 0 or abs(x) >= 1e-3) and \
+                        (special or rng.random() < (0.12 if tier == "quick" else 0.5)):
+                    iv_cases_w5.append(f"Rabs (clayton_cond_x {TH} {ET} {rlit(eps)} {erlit(x)} - {rlit(v)}) <= {rlit(tol_of(v))}")
             # monotone on each side of 0 with a jump at 0 of the right sign; limits 0 and 1
             good = all(math.isfinite(v) for v in vals)
             if good and not all(vals[i] <= vals[i + 1] + 1e-12 for i in range(len(vals) - 1)):
@@ -301,12 +365,15 @@ def correspond(res):
                         iv_cases.append(f"Rabs (clayton_inv {TH} {ET} {rlit(eps)} {rlit(u)} - {rlit(back)}) <= {rlit(tol_of(back) * 1000)}")
         # ---- mixed derivative: closed-form mixed partial (mpmath, 40 digits, independent of the implementation) ---------
         #      + finite differences of the implementation's own copula to tie that closed form to copula(us)
-        for us in [(1.5, 0.8), (-1.2, 0.4), (0.3, -2.0), (-0.5, -0.7), (2.5, 2.5), (1.0, 1.1, 0.9), (-1.2, 1.1, 1.3), (-0.9, -1.0, 1.05), (1.5, 0.8, 0.6)]:
+        for us in [(1.5, 0.8), (-1.2, 0.4), (0.3, -2.0), (-0.5, -0.7), (2.5, 2.5), (1.0, 1.1, 0.9), (-1.2, 1.1, 1.3), (-0.9, -1.0, 1.05), (1.5, 0.8, 0.6),
+                   (-0.7, -1.3, -0.6), (1.2, -0.8, 0.5), (0.9, 1.4, -2.0), (-1.1, 0.6, -0.9), (1.3, -0.4, -1.7)]:   # d = 3: all eight octants
             d = len(us)
             with np.errstate(all="ignore"):
                 xfd = float(cop.x_first_derivative(np.array(us)))
             if d == 2:
                 iv_cases.append(f"Rabs (clayton_xderiv2 {TH} {ET} {rlit(us[0])} {rlit(us[1])} - {rlit(xfd)}) <= {rlit(tol_of(xfd))}")
+            if math.isfinite(xfd) and (d == 3 or us in ((-1.2, 0.4), (2.5, 2.5))):     # any-dimension model (wave 5): d = 3 in every sign pattern
+                iv_cases_w5.append(f"Rabs (clayton_xderiv {TH} {ET} {lst([rlit(t) for t in us])} - {rlit(xfd)}) <= {rlit(reltol_of(xfd))}")
             D = mixed_partial_mp(th, et, us)
             res.count(("xfd", str(desc), us), kind=f"clayton mixed derivative d={d}")
             # tie D to the implementation's copula by a central finite difference (coarse: 1e-3 where it is well conditioned)
@@ -328,6 +395,8 @@ def correspond(res):
             res.count(("xfd0", str(desc), us), kind="clayton mixed derivative with a zero entry")
             if v != 0:
                 viol("x_first_derivative with a zero argument is not 0", kind="xfd_zero", copula=desc, u=list(us), got=v)
+            else:
+                iv_cases_w5.append(f"Rabs (clayton_xderiv {TH} {ET} {lst([rlit(t) for t in us])} - 0) <= {rlit(Fraction(1, 10 ** 15))}")
 
     # ---- parameters RE-ASSIGNED on an existing object (theta is a validated settable property, eta a plain attribute): after every
     #      re-assignment the object must be THE copula of its current parameters at every entry point (bit-for-bit equal to a freshly
@@ -402,17 +471,54 @@ def correspond(res):
                     viol("after re-assigning theta / eta the copula differs from a freshly constructed copula with the same parameters", kind="reassigned",
                          entry="x_first_derivative", copula=desc, us=list(us), got=got, fresh=want, **hist)
 
-    # the dependent copula's conditional_distribution (counts the +inf entries of x): exercised, values 0 / 1 / 2
+    # the dependent copula's conditional_distribution (np.count_nonzero(x == np.inf)): every vector of the lattice in d-1 = 1, 2
+    #      against the model dep_cond (exact, vm_compute); for x.size = 1 (d = 2) it must be a 0/1 non-decreasing function of x
     depc = CM.make_copula(["dep"])
-    for x, want in ((np.array([1.0]), 0), (np.array([INF]), 1), (np.array([INF, INF]), 2), (np.array([-INF, 3.0]), 0)):
-        got = depc.conditional_distribution(0.5, x)
-        res.count(("dep-cond", tuple(x)), kind="dependent conditional distribution")
-        if got != want:
-            viol("DependentComponentsCopula.conditional_distribution does not count the +inf entries", kind="dep_cond", x=[float(t) for t in x], got=int(got))
+    dc_cases = []
+    for r in (1, 2):
+        for x in itertools.product(LATTICE, repeat=r):
+            for eps in (0.5, -2.0):
+                got = depc.conditional_distribution(eps, np.array(x))
+                res.count(("dep-cond", eps, tuple(x)), kind="dependent conditional distribution")
+                want = sum(1 for t in x if t == INF)
+                if got != want:
+                    viol("DependentComponentsCopula.conditional_distribution does not count the +inf entries", kind="dep_cond", copula=["dep"],
+                         eps=eps, x=[float(t) for t in x], got=int(got))
+            dc_cases.append(f"({elist(x)}, {int(got)}%nat)")
+    groups.append(("dep_cond", "list (ext Q) * nat", "fun c => Nat.eqb (dep_cond (fst c)) (snd c)", dc_cases))
+    # the inverses that are NOT closed forms (audit3 D16): observed, not judged -- the generic Newton inverse of the base class is called
+    # by scipy without a starting point and raises for every copula that does not override it; the dependent copula refuses explicitly
+    from rpylib.distribution.levycopula import LevyCopula
+
+    class _ClaytonThroughGenericInverse(LevyCopula):       # Clayton's conditional distribution, base-class (Newton) inverse
+        def __init__(self, c):
+            self.c = c
+
+        def __call__(self, us):
+            return self.c(us)
+
+        def conditional_distribution(self, eps, x):
+            return self.c.conditional_distribution(eps, np.atleast_1d(x))[0]
+    for label, obj in (("independent", CM.make_copula(["indep"])), ("dependent", depc),
+                       ("clayton-conditional + generic Newton", _ClaytonThroughGenericInverse(clay[0][1]))):
+        res.count(("generic-inverse", label), kind="inverse conditional distribution without closed form")
+        try:
+            with np.errstate(all="ignore"):
+                back = obj.inverse_conditional_distribution(np.array([0.6]), np.array([0.5]))
+            res.bump("inverse_without_closed_form", f"{label}: returned")
+            # if it ever returns, it must invert the conditional distribution it was given
+            if label.startswith("clayton"):
+                th, et = clay[0][0][1], clay[0][0][2]
+                u = float(clay[0][1].conditional_distribution(0.6, np.atleast_1d(np.asarray(back, dtype=float)).ravel()[:1])[0])
+                if not abs(u - 0.5) <= 1e-6:
+                    viol("generic (Newton) inverse conditional distribution returned a value that does not invert the conditional distribution",
+                         kind="generic_inverse", copula=clay[0][0], eps=0.6, u=0.5, got=float(np.ravel(back)[0]))
+        except (ValueError, NotImplementedError, TypeError, RuntimeError) as e:
+            res.bump("inverse_without_closed_form", f"{label}: raises {type(e).__name__}")
 
     # ============ Coq side ======================================================================================
     res.case_lemmas += len(groups)
-    header = ("From Coq Require Import List Arith Bool ZArith QArith.\nFrom RV Require Import Base.QB Base.ExtNum Base.Corr Model.Copula.\nOpen Scope Q_scope.\n")
+    header = ("From Coq Require Import List Arith Bool ZArith QArith.\nFrom RV Require Import Base.QB Base.ExtNum Base.Corr Model.Copula Model.CopulaX.\nOpen Scope Q_scope.\n")
     bad = coq_bad_indices(PROP, "cases", header, groups, timeout=1500)
     for g, ty, chk, cases in groups:
         if bad[g]:
@@ -420,16 +526,17 @@ def correspond(res):
         else:
             res.case_ok += 1
     _interval_cases(res, iv_cases)
+    _interval_cases(res, iv_cases_w5, header=IV_HEADER_W5, tac="cl5", name="intervalx")
 
 
-def _interval_cases(res, stmts, shard=60):
+def _interval_cases(res, stmts, shard=60, header=IV_HEADER, tac="cl", name="interval"):
     shards = [stmts[i:i + shard] for i in range(0, len(stmts), shard)]
 
     def work(k):
-        body = [IV_HEADER]
+        body = [header]
         for j, st in enumerate(shards[k]):
-            body.append(f"Lemma case_{j} : {st}.\nProof. cl. interval with (i_prec 90). Qed.")
-        rc, out = coq_eval_file(PROP, f"interval_{k}", "\n".join(body) + "\n", timeout=900)
+            body.append(f"Lemma case_{j} : {st}.\nProof. {tac}. interval with (i_prec 90). Qed.")
+        rc, out = coq_eval_file(PROP, f"{name}_{k}", "\n".join(body) + "\n", timeout=900)
         return k, rc, out
 
     res.case_lemmas += len(stmts)
@@ -442,7 +549,7 @@ def _interval_cases(res, stmts, shard=60):
             import re
             m = re.search(r'line (\d+)', out)
             from common import run_dir
-            txt = (run_dir(PROP) / f"interval_{k}.v").read_text().splitlines() if m else []
+            txt = (run_dir(PROP) / f"{name}_{k}.v").read_text().splitlines() if m else []
             j = None
             if m:
                 for ln in range(int(m.group(1)) - 1, -1, -1):
@@ -451,7 +558,7 @@ def _interval_cases(res, stmts, shard=60):
                         j = int(mm.group(1))
                         break
             res.case_ok += j or 0
-            res.broke(f"correspondence interval_{k}" + (f" case_{j}" if j is not None else ""),
+            res.broke(f"correspondence {name}_{k}" + (f" case_{j}" if j is not None else ""),
                       (f"Interval could not certify: {shards[k][j][:700]}\n" if j is not None else "") + out[-800:])
 
 
@@ -524,6 +631,14 @@ def replay(path):
             back = float(cop.inverse_conditional_distribution(np.array([data["eps"]]), np.array([data["u"]]))[0])
             print("inverse ->", back, "expected", data["x"])
             return 0 if abs(back - data["x"]) <= 1e-6 * max(1, abs(data["x"])) else 1
+        if kind == "dep_cond":
+            got = int(cop.conditional_distribution(data["eps"], np.array(data["x"], dtype=float)))
+            print("conditional_distribution =", got)
+            return 0 if got == sum(1 for t in data["x"] if t == INF) else 1
+        if kind == "xfd_zero":
+            v = float(cop.x_first_derivative(np.array(data["u"], dtype=float)))
+            print("x_first_derivative =", v)
+            return 0 if v == 0 else 1
         if kind == "xfd":
             u = np.array(data["u"], dtype=float)
             xfd = float(cop.x_first_derivative(u))
